@@ -17,6 +17,30 @@ def params_of(fn: ast.AST) -> T.List[str]:
     return [x.arg for x in a.posonlyargs + a.args]
 
 
+MUTATORS = ('append', 'extend', 'insert', 'add', 'update', 'setdefault', 'appendleft', 'prepend')
+
+
+def whole_uses(v: ast.AST, pname: str) -> bool:
+    """Is the object named `pname` itself used in `v` (not merely one of its attributes read)?"""
+    attr_bases = {id(x.value) for x in ast.walk(v) if isinstance(x, ast.Attribute)}
+    return any(isinstance(x, ast.Name) and x.id == pname and id(x) not in attr_bases for x in ast.walk(v))
+
+
+def bind_call(call: ast.Call, params: T.List[str], skip: int = 0) -> T.Optional[T.List[T.Optional[ast.AST]]]:
+    """Arguments of `call` (after `skip` leading positionals) aligned to `params` by position or keyword name; None if it cannot be done."""
+    pos = list(call.args[skip:])
+    if any(isinstance(a, ast.Starred) for a in pos) or any(k.arg is None for k in call.keywords) or len(pos) > len(params):
+        return None
+    out: T.List[T.Optional[ast.AST]] = [None] * len(params)
+    for i, a in enumerate(pos):
+        out[i] = a
+    for k in call.keywords:
+        if k.arg not in params or out[params.index(k.arg)] is not None:
+            return None
+        out[params.index(k.arg)] = k.value
+    return out
+
+
 class NodeModel:
     """Classes of mparser deriving from BaseNode and what their constructors do with each parameter:
     'tok'   - the parameter is a Token whose .value is copied into the node (the token is materialised),
@@ -104,6 +128,7 @@ class NodeModel:
         if depth > 6:
             raise Undecided(f'{owner.name}.{fn.name}: delegation chain too deep')
         found: T.Set[str] = set()
+        explained: T.Set[int] = set()     # ids of Name nodes of pname whose use is understood
         for n in walk_no_nested(fn):
             if isinstance(n, (ast.Assign, ast.AugAssign, ast.AnnAssign)) and getattr(n, 'value', None) is not None:
                 tgts = n.targets if isinstance(n, ast.Assign) else [n.target]
@@ -113,29 +138,48 @@ class NodeModel:
                     if not ch.startswith('self.'):
                         continue
                     v = n.value
-                    if isinstance(v, ast.Name) and v.id == pname and isinstance(n, (ast.Assign, ast.AnnAssign)):
-                        found.add('store')
-                    elif any(isinstance(x, ast.Attribute) and x.attr == 'value' and isinstance(x.value, ast.Name) and x.value.id == pname
-                             for x in ast.walk(v)):
+                    if any(isinstance(x, ast.Attribute) and x.attr == 'value' and isinstance(x.value, ast.Name) and x.value.id == pname
+                           for x in ast.walk(v)):
                         found.add('tok')
-                    elif fn.name != '__init__' and pname in names_in(v):
+                    if whole_uses(v, pname):
                         found.add('store')
-                    if isinstance(t, ast.Subscript) and fn.name != '__init__' and pname in names_in(t.slice):
+                        explained |= {id(x) for x in ast.walk(v) if isinstance(x, ast.Name) and x.id == pname}
+                    if isinstance(t, ast.Subscript) and whole_uses(t.slice, pname):
                         found.add('store')
+                        explained |= {id(x) for x in ast.walk(t.slice) if isinstance(x, ast.Name) and x.id == pname}
             elif isinstance(n, ast.Call):
+                f = n.func
+                if isinstance(f, ast.Attribute) and f.attr in MUTATORS and (attr_chain(f.value) or '').startswith('self.'):
+                    for a in list(n.args) + [k.value for k in n.keywords]:
+                        if whole_uses(a, pname):
+                            found.add('store')
+                            explained |= {id(x) for x in ast.walk(a) if isinstance(x, ast.Name) and x.id == pname}
                 tgt = self._delegate(of, owner, n)
                 if tgt is None:
+                    if isinstance(f, ast.Name) and f.id in ('isinstance', 'len', 'type', 'id', 'repr', 'str', 'hasattr'):
+                        explained |= {id(x) for a in n.args for x in ast.walk(a) if isinstance(x, ast.Name) and x.id == pname}
                     continue
                 c2, f2, args = tgt
                 ps = params_of(f2)[1:]
-                for i, a in enumerate(args):
-                    if isinstance(a, ast.Name) and a.id == pname and i < len(ps):
+                bound = bind_call(ast.Call(func=n.func, args=args, keywords=n.keywords), ps)
+                if bound is None:
+                    continue
+                for i, a in enumerate(bound):
+                    if isinstance(a, ast.Name) and a.id == pname:
                         found.add(self._role(of, c2, f2, ps[i], depth + 1))
-        role = 'tok' if 'tok' in found else 'store' if 'store' in found else 'pos'
-        if role == 'store':
+                        explained.add(id(a))
+        attr_bases = {id(x.value) for x in walk_no_nested(fn) if isinstance(x, ast.Attribute)}
+        for x in walk_no_nested(fn):
+            if isinstance(x, ast.Name) and x.id == pname and isinstance(x.ctx, ast.Load) and id(x) not in attr_bases and id(x) not in explained:
+                par = None
+                found.add('unknown')    # the object is handed on in a way this model does not follow
+        found.discard('pos')
+        role = 'tok' if 'tok' in found else 'store' if 'store' in found else 'unknown' if 'unknown' in found else 'pos'
+        if role in ('store', 'unknown'):
             # a stored parameter is a child only when it is typed as a node (or untyped); ints/strings are positions/labels
             ann = next((a.annotation for a in fn.args.posonlyargs + fn.args.args if a.arg == pname), None)
-            if ann is not None and self._field_kind(ann) is None:
+            scalars = {'int', 'str', 'bool', 'float', 'bytes', 'T', 'typing', 'Optional', 'None'}
+            if ann is not None and self._field_kind(ann) is None and (names_in(ann) | {'T'}) <= scalars:
                 role = 'pos'
         self._memo[key] = role
         return role
@@ -155,20 +199,28 @@ class NodeModel:
             return (r[0], r[1], list(call.args)) if r else None
         return None
 
-    def method_stores(self, meth: str, idx: int) -> T.Optional[bool]:
-        """Does node-class method `meth` keep its idx-th argument in a field?  None: no node class defines it."""
-        res: T.List[bool] = []
-        for name, c in self.classes.items():
+    def method_stores(self, meth: str, idx: T.Union[int, str], cls: T.Optional[str] = None) -> T.Optional[str]:
+        """Does node-class method `meth` keep its argument (given by position or keyword name) in a field?
+        'yes' / 'no' / 'unknown' (the method hands it on in a way not followed); None: no node class defines the method."""
+        res: T.List[str] = []
+        if cls is not None and cls in self.classes:
+            r0 = self.find(cls, meth)
+            scope = [(cls, r0[0])] if r0 else []
+        else:
+            scope = list(self.classes.items())
+        for name, c in scope:
             for st in c.body:
                 if isinstance(st, ast.FunctionDef) and st.name == meth:
                     ps = params_of(st)[1:]
-                    if idx >= len(ps):
-                        res.append(False)
+                    pn = idx if isinstance(idx, str) else (ps[idx] if idx < len(ps) else None)
+                    if pn is None or pn not in ps:
+                        res.append('no')
                     else:
-                        res.append(self._role(name, c, st, ps[idx], 0) in ('store', 'tok'))
+                        r = self._role(name, c, st, pn, 0)
+                        res.append('yes' if r in ('store', 'tok') else 'unknown' if r == 'unknown' else 'no')
         if not res:
             return None
-        return all(res)
+        return 'yes' if all(r == 'yes' for r in res) else 'unknown' if 'unknown' in res or 'yes' in res else 'no'
 
     def carrier_free(self) -> T.Set[str]:
         """Leaf classes whose constructor keeps no token and no child (EmptyNode)."""
@@ -228,3 +280,78 @@ def fixed_spellings(repo: T.Any, model: NodeModel) -> T.Dict[str, str]:
         if len(adds) == 1 and isinstance(adds[0].value, ast.Constant) and isinstance(adds[0].value.value, str) and not reads:
             out[name[6:]] = adds[0].value.value
     return out
+
+
+def unroll_tables(fn: ast.AST, mod: T.Any, limit: int = 16) -> ast.AST:
+    """Copy of `fn` in which every `for a, b in CONST_TABLE:` over a constant display (a module-level tuple/list/dict of
+    constants and names, or a literal display) is replaced by one copy of its body per row with the loop variables substituted.
+    This enumerates a finite domain the source declares; loops with break/continue/else or that rebind their variables stay."""
+    import copy
+
+    def rows_of(it: ast.AST) -> T.Optional[T.List[ast.AST]]:
+        items = False
+        if isinstance(it, ast.Call) and isinstance(it.func, ast.Attribute) and it.func.attr == 'items' and not it.args:
+            it, items = it.func.value, True
+        if isinstance(it, ast.Name) and mod.has_assign(it.id):
+            it = mod.assign_value(it.id)
+        if isinstance(it, (ast.Tuple, ast.List)) and not items:
+            rows: T.List[ast.AST] = list(it.elts)
+        elif isinstance(it, ast.Dict) and all(k is not None for k in it.keys):
+            rows = [ast.Tuple(elts=[k, v], ctx=ast.Load()) for k, v in zip(it.keys, it.values)] if items else list(it.keys)  # type: ignore[list-item]
+        else:
+            return None
+
+        def simple(x: ast.AST) -> bool:
+            return isinstance(x, (ast.Constant, ast.Name)) or (isinstance(x, (ast.Tuple, ast.List)) and all(simple(y) for y in x.elts)) \
+                or (isinstance(x, ast.Attribute) and attr_chain(x) is not None)
+        return rows if 0 < len(rows) <= limit and all(simple(r) for r in rows) else None
+
+    class Subst(ast.NodeTransformer):
+        def __init__(self, m: T.Dict[str, ast.AST]):
+            self.m = m
+
+        def visit_Name(self, n: ast.Name) -> ast.AST:
+            if n.id in self.m and isinstance(n.ctx, ast.Load):
+                return ast.copy_location(copy.deepcopy(self.m[n.id]), n)
+            return n
+
+    class Unroll(ast.NodeTransformer):
+        def visit_For(self, node: ast.For) -> T.Any:
+            self.generic_visit(node)
+            rows = rows_of(node.iter)
+            tg = node.target
+            names = [tg.id] if isinstance(tg, ast.Name) else [e.id for e in tg.elts if isinstance(e, ast.Name)] if isinstance(tg, (ast.Tuple, ast.List)) else []
+            if rows is None or node.orelse or not names or (isinstance(tg, (ast.Tuple, ast.List)) and len(names) != len(tg.elts)):
+                return node
+            inner = [x for st in node.body for x in ast.walk(st)]
+            if any(isinstance(x, (ast.Break, ast.Continue)) for x in inner) or \
+                    any(isinstance(x, ast.Name) and x.id in names and not isinstance(x.ctx, ast.Load) for x in inner):
+                return node
+            out: T.List[ast.stmt] = []
+            for r in rows:
+                if isinstance(tg, ast.Name):
+                    m = {tg.id: r}
+                elif isinstance(r, (ast.Tuple, ast.List)) and len(r.elts) == len(names):
+                    m = dict(zip(names, r.elts))
+                else:
+                    return node
+                out += [Subst(m).visit(copy.deepcopy(st)) for st in node.body]
+            return out
+    if not any(isinstance(x, ast.For) and rows_of(x.iter) is not None for x in ast.walk(fn)):
+        return fn
+    new = Unroll().visit(copy.deepcopy(fn))
+    ast.fix_missing_locations(new)
+    return new
+
+
+_MODELS: T.Dict[int, NodeModel] = {}
+
+
+def model_for(repo: T.Any) -> NodeModel:
+    """One NodeModel per repository object (rules of the pack share it)."""
+    m = _MODELS.get(id(repo))
+    if m is None or m.repo is not repo:
+        if len(_MODELS) > 8:
+            _MODELS.clear()
+        m = _MODELS[id(repo)] = NodeModel(repo)
+    return m
